@@ -77,9 +77,16 @@ def apply(root, op):
     if kind == 'set':
         _, typ, name, value, idx = op
         sec, o, _ = resolve(root, name)
-        if o is None or o.d.typ != typ or o.d.simple:
+        if o is None or o.d.typ != typ:
             return -1
         i = idx or 0
+        if o.d.simple:
+            # a "simple" option is a scalar whose one value lives in the caller's variable
+            if i != 0:
+                return -1
+            o.sv = value
+            o.mod = True
+            return 0
         if i != 0 and not o.d.is_list:
             return -1
         if typ == 'str' and value is None and False:
@@ -97,6 +104,8 @@ def apply(root, op):
         sec, o, _ = resolve(root, name)
         if o is None or o.d.typ != 'str':
             return -1
+        if o.d.simple:
+            return UNSPEC
         if to != 0 and not o.d.is_list:
             return -1
         src = o.vals[frm] if frm < len(o.vals) else None
@@ -115,6 +124,8 @@ def apply(root, op):
         sec, o, _ = resolve(root, name)
         if o is None or not o.d.is_list:
             return -1
+        if o.d.simple:
+            return UNSPEC
         if o.d.typ != typ:
             return UNSPEC          # passing varargs of another type is undefined in C
         if kind == 'setlist':
@@ -129,6 +140,8 @@ def apply(root, op):
         sec, o, _ = resolve(root, name)
         if o is None or not strs:
             return -1
+        if o.d.simple:
+            return UNSPEC
         if o.d.typ not in ('int', 'float', 'bool', 'str'):
             return UNSPEC
         if not o.d.is_list and len(strs) > 1:
@@ -149,7 +162,7 @@ def apply(root, op):
         sec, o, _ = resolve(root, name)
         if o is None:
             return UNSPEC
-        if o.d.is_list or o.d.typ not in ('int', 'float', 'bool', 'str'):
+        if o.d.is_list or o.d.simple or o.d.typ not in ('int', 'float', 'bool', 'str'):
             return UNSPEC
         c = conv(o.d.typ, s)
         if c[0] == 'unspec':
